@@ -41,7 +41,7 @@ m = {
     ],
     "checks": checks,
     "not_applicable": na,
-    "notes": "See DESIGN.md. Every check: extract -> lake build of the property's theorems + axiom audit -> correspondence -> monitors on real traces -> verdict.",
+    "notes": "See DESIGN.md. Every check: extract -> lake build of the property's theorems + axiom audit -> correspondence -> monitors on real traces -> verdict. Genuine defects of rsactor repaired in /repo by unguarded fix: commits 19f65c2 (C03), 2f53652 (C15), 34034cc (C06); known_findings.txt lists them as fixed: lines (they suppress nothing).",
 }
 json.dump(m, open(os.path.join(ROOT, "MANIFEST.json"), "w"), indent=1)
 print("checks:", [c["property_id"] for c in checks], "not_applicable:", len(na))
